@@ -3,8 +3,12 @@
 package priority
 
 import (
+	"time"
+
 	"github.com/akramarenkov/cqos/internal/general"
 	"github.com/akramarenkov/cqos/priority/internal/common"
+
+	"github.com/akramarenkov/breaker"
 )
 
 // Verification hooks (build tag verif): expose unexported pure helpers.
@@ -32,4 +36,115 @@ func VerifSafeDivide(
 	distribution map[uint]uint,
 ) error {
 	return safeDivide(divider, priorities, dividend, distribution)
+}
+
+// VerifStepper drives a real Discipline one method call at a time: the value is
+// built exactly like New builds it, but the main goroutine is not started.
+type VerifStepper[Type any] struct {
+	dsc *Discipline[Type]
+}
+
+func VerifNewStepper[Type any](opts Opts[Type]) (*VerifStepper[Type], error) {
+	if err := opts.isValid(); err != nil {
+		return nil, err
+	}
+
+	feedbackLimit := general.DivideWithMin(
+		opts.HandlersQuantity,
+		defaultFeedbackLimitDivider,
+		1,
+	)
+
+	dsc := &Discipline[Type]{
+		opts: opts.normalize(),
+
+		breaker:  breaker.New(),
+		graceful: breaker.New(),
+
+		inputs: make(map[uint]common.Input[Type]),
+
+		inputAdds: make(chan inputAdd[Type]),
+		inputRmvs: make(chan uint),
+
+		actual:    make(map[uint]uint),
+		strategic: make(map[uint]uint),
+		tactic:    make(map[uint]uint),
+
+		feedbackLimit: feedbackLimit,
+
+		interrupter: time.NewTicker(defaultInterruptTimeout),
+
+		err: make(chan error, 1),
+	}
+
+	dsc.updateInputs(opts.Inputs)
+
+	return &VerifStepper[Type]{dsc: dsc}, nil
+}
+
+func (stp *VerifStepper[Type]) CalcTactic() (bool, error)   { return stp.dsc.calcTactic() }
+func (stp *VerifStepper[Type]) GetOneFeedback()             { stp.dsc.getOneFeedback() }
+func (stp *VerifStepper[Type]) Prioritize() uint            { return stp.dsc.prioritize() }
+func (stp *VerifStepper[Type]) RecalcTactic() (bool, error) { return stp.dsc.recalcTactic() }
+func (stp *VerifStepper[Type]) Base() (uint, error)         { return stp.dsc.base() }
+func (stp *VerifStepper[Type]) GetLimitedFeedback()         { stp.dsc.getLimitedFeedback() }
+func (stp *VerifStepper[Type]) WaitZeroActual()             { stp.dsc.waitZeroActual() }
+func (stp *VerifStepper[Type]) IsDrainedInputs() bool       { return stp.dsc.isDrainedInputs() }
+func (stp *VerifStepper[Type]) IsZeroActual() bool          { return stp.dsc.isZeroActual() }
+func (stp *VerifStepper[Type]) ClearActual()                { stp.dsc.clearActual() }
+func (stp *VerifStepper[Type]) DecreaseActual(p uint)       { stp.dsc.decreaseActual(p) }
+func (stp *VerifStepper[Type]) FeedbackLimit() uint         { return stp.dsc.feedbackLimit }
+func (stp *VerifStepper[Type]) StopTicker()                 { stp.dsc.interrupter.Stop() }
+func (stp *VerifStepper[Type]) WaitCalcTactic() error       { return stp.dsc.waitCalcTactic() }
+
+func (stp *VerifStepper[Type]) AddInput(channel <-chan Type, priority uint) {
+	stp.dsc.addInput(channel, priority)
+}
+
+func (stp *VerifStepper[Type]) RemoveInput(priority uint) { stp.dsc.removeInput(priority) }
+
+// Breaks the breaker without waiting for completion (there is no main goroutine).
+func (stp *VerifStepper[Type]) BreakNoWait() {
+	go stp.dsc.breaker.Break()
+	<-stp.dsc.breaker.IsBreaked()
+}
+
+// Marks the graceful breaker as broken without waiting for completion.
+func (stp *VerifStepper[Type]) GracefulNoWait() {
+	go stp.dsc.graceful.Break()
+	<-stp.dsc.graceful.IsBreaked()
+}
+
+// Read-only copies of the scheduler state.
+func (stp *VerifStepper[Type]) Snapshot() (
+	actual map[uint]uint,
+	strategic map[uint]uint,
+	tactic map[uint]uint,
+	priorities []uint,
+	drained map[uint]bool,
+) {
+	actual = make(map[uint]uint)
+	strategic = make(map[uint]uint)
+	tactic = make(map[uint]uint)
+	drained = make(map[uint]bool)
+
+	for k, v := range stp.dsc.actual {
+		actual[k] = v
+	}
+
+	for k, v := range stp.dsc.strategic {
+		strategic[k] = v
+	}
+
+	for k, v := range stp.dsc.tactic {
+		tactic[k] = v
+	}
+
+	priorities = append(priorities, stp.dsc.priorities...)
+
+	for k, v := range stp.dsc.inputs {
+		drained[k] = v.Drained
+	}
+
+	return actual, strategic, tactic, priorities, drained
 }
